@@ -152,7 +152,7 @@ def _one(case, den0=None):
     """run one case completely in this process: impl, Spec readings, verdict (used for confirmation, shrinking, replay)"""
     res = c04lib.run_impl(case)
     if res["read"] != "ok":
-        return res, None, None
+        return res, None, c04lib.judge_unwritable(case, res)
     texts = [case["text"], res["baseline"]] + ([res["written"]] if res["written"] is not None else [])
     dens = spec.denote_many(texts, case["limit"])
     den1 = dens[2] if len(dens) > 2 else None
@@ -228,7 +228,7 @@ def run(chk):
     for name, t in fixtures():
         texts.append(("fixture:" + name, ascii_clean(t), 128))
     rng = chk.rng("problems")
-    ngen = chk.pick(170, 2600)
+    ngen = chk.pick(400, 2600)
     for i in range(ngen):
         feats = set(FEATURES)
         if i % 3 == 0:
@@ -336,6 +336,16 @@ def run(chk):
         if r["read"] != "ok":
             chk.count("read:" + r["read"])
             chk.note_case({"text": c["text"], "ops": c["ops"]}, False)
+            v = c04lib.judge_unwritable(c, r)
+            if v is not None:
+                r2, _, v = _one(c)  # confirm in this process
+                if v is None:
+                    chk.count("flaky:violation-not-reproduced")
+                else:
+                    mc = dict(c, ops=[])
+                    if canon(v[0]) not in {x["key"] for x in chk.violations} and len(chk.violations) < 6:
+                        mc = dict(mc, text=c04lib.shrink_text(c["text"], lambda t, v=v: (_one(dict(mc, text=t))[2] or (None,))[0] == v[0], budget=40))
+                    chk.violation(v[0], v[1], {"case": mc, "error": r2.get("baseline_error")})
             continue
         d0 = case_den0[i] if case_den0[i] is not None else dens[slots[i]["orig"]]
         db = dens[slots[i]["base"]]
@@ -362,7 +372,10 @@ def run(chk):
                 chk.count("flaky:violation-not-reproduced")
         if verdict is not None:
             sig, what = verdict
-            mc = _shrink(c, sig) if len(chk.violations) < 6 else c
+            # minimise the first case of every signature only (all cases fail when a reference site is broken)
+            seen = canon(sig) in {v["key"] for v in chk.violations} or any(
+                all(sig.get(k) == v for k, v in f["signature"].items()) for f in chk.known)
+            mc = _shrink(c, sig) if (not seen and len(chk.violations) < 6) else c
             r3, _, v3 = _one(mc)
             chk.violation(sig, what if v3 is None else v3[1], {"case": mc, "written": r3.get("written"), "baseline": r3.get("baseline"), "outs": r3.get("outs")})
             continue  # the state is corrupt: do not compare the rest of this case with the model
@@ -422,6 +435,8 @@ def replay(chk, payload):
     chk.note_case({"text": case["text"], "ops": case["ops"]})
     if r["read"] != "ok":
         chk.count("read:" + r["read"])
+        if v is not None:
+            chk.violation(v[0], v[1], {"case": case, "error": r.get("baseline_error")})
     elif v is not None:
         chk.violation(v[0], v[1], {"case": case, "written": r.get("written"), "baseline": r.get("baseline"), "outs": r.get("outs")})
     elif drv.ok:
